@@ -110,6 +110,8 @@ MONITORS = {
 def run_stack(desc, props=None):
     """Run one stack scenario; returns (s, ctx, hits_by_property)."""
     wrapfut.install()
+    from world import wrappol
+    wrappol.install()
     ctx = stack.Ctx()
     kw = sched_kwargs(desc)
     kw["max_yields"] = desc.get("max_yields", 120000)
